@@ -7,6 +7,9 @@
  * enables tracking around library calls, so its own allocations do not disturb the numbers.
  */
 #include <errno.h>
+#include <execinfo.h>
+#include <fcntl.h>
+#include <unistd.h>
 #include <stddef.h>
 #include <stdint.h>
 #include <stdio.h>
@@ -57,8 +60,29 @@ static int tab_del(void *p, size_t *n) {
   return 0;
 }
 
+/* development aid (bin/vallocsites.py): with VF_ALLOC_SITES=<file> every counted request appends its call chain
+ * (offsets relative to the start of the executable) so that the allocation sites reached by the fault scenarios can be listed */
+extern char __executable_start;
+static int site_fd = -2;
+static int in_site_log;
+static void log_site(void) {
+  if (site_fd == -2) {
+    const char *p = getenv("VF_ALLOC_SITES");
+    site_fd = p ? open(p, O_WRONLY | O_CREAT | O_APPEND, 0644) : -1;
+  }
+  if (site_fd < 0 || in_site_log) return;
+  in_site_log = 1;
+  void *bt[8];
+  int n = backtrace(bt, 8);
+  uintptr_t rec[8];
+  for (int i = 0; i < 8; i++) rec[i] = i < n ? (uintptr_t)bt[i] - (uintptr_t)&__executable_start : 0;
+  if (write(site_fd, rec, sizeof rec) < 0) site_fd = -1;
+  in_site_log = 0;
+}
+
 static int should_fail(size_t size) {
-  if (!enabled || size == 0) return 0;
+  if (!enabled || size == 0 || in_site_log) return 0;
+  log_site();
   long me = req_index++;
   n_alloc++;
   if (me == fail_at) {
